@@ -117,8 +117,12 @@ package consensus
 //@   at call r.Decode: ghost gMessageAux = arg0
 //@   modifies gMessageAux, $decoded, heap box.*, heap message.*, heap Payload.message, heap messageAux.*, heap prepareRequest.*, heap prepareResponse.*, heap changeView.*, heap commit.*, heap amevCommit.*, heap preCommit.*, heap recoveryRequest.*, heap recoveryMessage.*, heap prepareRequestAux.*, heap prepareResponseAux.*, heap changeViewAux.*, heap commitAux.*, heap amevCommitAux.*, heap preCommitAux.*, heap recoveryRequestAux.*, heap recoveryMessageAux.*
 //@   ensures [C19] @allFields implies(result == nil, m.cmType == gMessageAux.CMType && m.viewNumber == gMessageAux.ViewNumber && m.payload != nil)
+//@ ghost gMarshals Int
+//@ ghost gPayloadEncodes Int
 //@ func (Payload).EncodeBinary
-//@   modifies gEncoded
+//@   modifies gEncoded, gPayloadEncodes
+//@   ghost gPayloadEncodes = gPayloadEncodes + 1
+//@   ensures [C19] @counted gPayloadEncodes == old(gPayloadEncodes) + 1
 //@   requires p.message.payload != nil
 //@   at call w.Encode: assert [C19] @allFields arg0.Version == p.version && arg0.ValidatorIndex == p.validatorIndex && arg0.PrevHash == p.prevHash && arg0.Height == p.height
 //@ func (*Payload).DecodeBinary
@@ -149,12 +153,16 @@ package consensus
 //@   ensures [C19] @noStaleHash p.hash == nil
 //@ func (*Payload).Hash
 //@   requires p.hash == nil && p.message.payload != nil
-//@   modifies gEncoded, gHashed, gLastHash
+//@   modifies gEncoded, gHashed, gLastHash, gMarshals, gPayloadEncodes
+// what is hashed is the unsigned encoding of the whole payload (header and message), produced once
+//@   ensures [C19] @hashedFromMarshal gMarshals == old(gMarshals) + 1 && gPayloadEncodes == old(gPayloadEncodes) + 1
 //@   ensures [C19] @hashedFromContent gHashed == old(gHashed) + 1 && result == gLastHash
 //@   ensures [C19] @noStaleHash p.hash == nil
 //@   ensures [C19] @contentKept p.version == old(p.version) && p.validatorIndex == old(p.validatorIndex) && p.prevHash == old(p.prevHash) && p.height == old(p.height) && p.message.cmType == old(p.message.cmType) && p.message.viewNumber == old(p.message.viewNumber) && p.message.payload == old(p.message.payload)
 //@ func (Payload).MarshalUnsigned
-//@   modifies gEncoded
+//@   modifies gEncoded, gMarshals, gPayloadEncodes
+//@   ghost gMarshals = gMarshals + 1
+//@   ensures [C19] @wholePayload gMarshals == old(gMarshals) + 1 && gPayloadEncodes == old(gPayloadEncodes) + 1
 //@   requires p.message.payload != nil
 
 // ---- recovery message: what it gives back for a proposal or a response carries the fields of the original ----
@@ -176,6 +184,7 @@ package consensus
 //@   ensures [C19] @wellFormed rmwf(m)
 //@   ensures [C19] @proposalKept implies(p.Type() == dbft.PrepareRequestType, m.prepareRequest == p.GetPrepareRequest() && m.preparationHash != nil && *m.preparationHash == p.Hash())
 //@   ensures [C19] @responseKept implies(p.Type() == dbft.PrepareResponseType, len(m.preparationPayloads) == old(len(m.preparationPayloads)) + 1 && m.preparationPayloads[old(len(m.preparationPayloads))].ValidatorIndex == p.ValidatorIndex())
+//@   ensures [C19] @changeViewKept implies(p.Type() == dbft.ChangeViewType, len(m.changeViewPayloads) == old(len(m.changeViewPayloads)) + 1 && m.changeViewPayloads[old(len(m.changeViewPayloads))].ValidatorIndex == p.ValidatorIndex() && m.changeViewPayloads[old(len(m.changeViewPayloads))].OriginalViewNumber == p.ViewNumber())
 //@   ensures [C19] @commitKept implies(p.Type() == dbft.CommitType, len(m.commitPayloads) == old(len(m.commitPayloads)) + 1 && m.commitPayloads[old(len(m.commitPayloads))].ValidatorIndex == p.ValidatorIndex() && m.commitPayloads[old(len(m.commitPayloads))].ViewNumber == p.ViewNumber())
 //@   ensures [C19] @preCommitKept implies(p.Type() == dbft.PreCommitType, len(m.preCommitPayloads) == old(len(m.preCommitPayloads)) + 1 && m.preCommitPayloads[old(len(m.preCommitPayloads))].ValidatorIndex == p.ValidatorIndex() && m.preCommitPayloads[old(len(m.preCommitPayloads))].ViewNumber == p.ViewNumber() && sametable(m.preCommitPayloads[old(len(m.preCommitPayloads))].Data, p.GetPreCommit().Data()))
 
@@ -234,7 +243,9 @@ package consensus
 //@   loop 1: invariant 0 <= idx && idx <= len(m.changeViewPayloads) && len(retvar) == len(m.changeViewPayloads)
 //@   loop 1: invariant forall(k, 0, idx, retvar[k] != nil && as(Payload, retvar[k]).message.cmType == dbft.ChangeViewType && as(Payload, retvar[k]).message.viewNumber == p.ViewNumber() && as(Payload, retvar[k]).height == p.Height() && as(Payload, retvar[k]).hash == nil)
 //@   loop 1: invariant forall(k, 0, idx, as(Payload, retvar[k]).validatorIndex == m.changeViewPayloads[k].ValidatorIndex)
+//@   loop 1: invariant forall(k, 0, idx, as(Payload, retvar[k]).message.payload != nil && as(changeView, as(Payload, retvar[k]).message.payload).newViewNumber == emod(m.changeViewPayloads[k].OriginalViewNumber + 1, 256))
 //@   ensures [C19] @onePerEntry len(result) == len(m.changeViewPayloads)
+//@   ensures [C19] @sameTarget forall(k, 0, len(result), as(changeView, as(Payload, result[k]).message.payload).newViewNumber == emod(m.changeViewPayloads[k].OriginalViewNumber + 1, 256))
 //@   ensures [C19] @sameSlot forall(k, 0, len(result), result[k] != nil && as(Payload, result[k]).message.cmType == dbft.ChangeViewType && as(Payload, result[k]).message.viewNumber == p.ViewNumber() && as(Payload, result[k]).height == p.Height() && as(Payload, result[k]).hash == nil)
 //@   ensures [C19] @sameSender forall(k, 0, len(result), as(Payload, result[k]).validatorIndex == m.changeViewPayloads[k].ValidatorIndex)
 //@ func (*recoveryMessage).GetPreCommits
@@ -250,10 +261,21 @@ package consensus
 // the recovery message's own encoding: every list goes into the encoded structure and comes back from it
 //@ func NewRecoveryMessage
 //@   ensures [C19] @wellFormed result != nil
+// how often a preparation hash went to the encoder / came from the decoder, and where the decoder put it
+//@ ghost gHashWrites Int
+//@ ghost gHashReads Int
+//@ ghost gHashTarget Ref
 //@ func (recoveryMessage).EncodeBinary
-//@   modifies gEncoded
+//@   modifies gEncoded, gHashWrites
+//@   at call w.Encode<Uint256>: ghost gHashWrites = gHashWrites + 1
+// the stored preparation hash goes onto the wire whenever there is one
+//@   ensures [C19] @hashWritten implies(result == nil && m.preparationHash != nil, gHashWrites > old(gHashWrites))
 //@   at call w.Encode<recoveryMessageAux>: assert [C19] @allLists sametable(arg0.PreparationPayloads, m.preparationPayloads) && sametable(arg0.PreCommitPayloads, m.preCommitPayloads) && sametable(arg0.CommitPayloads, m.commitPayloads) && sametable(arg0.ChangeViewPayloads, m.changeViewPayloads)
 //@ func (*recoveryMessage).DecodeBinary
+//@   at call r.Decode<Uint256>: ghost gHashReads = gHashReads + 1
+//@   at call r.Decode<Uint256>: ghost gHashTarget = arg0
+// a preparation hash read from the wire ends up in the message
+//@   ensures [C19] @hashRestored implies(result == nil && gHashReads > old(gHashReads), m.preparationHash != nil && m.preparationHash == gHashTarget)
 //@   at call r.Decode<recoveryMessageAux>: ghost gRecoveryAux = arg0
 //@   loop 1: invariant 0 <= idx && idx <= len(gRecoveryAux.PreCommitPayloads) && forall(k, 0, idx, len(gRecoveryAux.PreCommitPayloads[k].Data) == 4)
 //@   ensures [C19] @allLists implies(result == nil, sameelems(m.preparationPayloads, gRecoveryAux.PreparationPayloads) && sameelems(m.preCommitPayloads, gRecoveryAux.PreCommitPayloads) && sameelems(m.commitPayloads, gRecoveryAux.CommitPayloads) && sameelems(m.changeViewPayloads, gRecoveryAux.ChangeViewPayloads))
@@ -267,10 +289,22 @@ package consensus
 //@   pure
 //@   ghost gHashed = gHashed + 1
 //@   ghost gLastHash = result
+// what the last tree was built over, and the hash of the last root handed out
+//@ ghost gTreeOver RefSeq
+//@ ghost gLastRootHash Ref
 //@ extern merkle.NewMerkleTree
+//@   ghost gTreeOver = arg0
 //@   ensures implies(len(arg0) > 0, result != nil)
 //@ extern merkle.(*Tree).Root
+//@   ghost gLastRootHash = result.Hash
 //@   ensures result != nil
+// the signature check of internal/crypto (its own contract is proved there; restated here to count the calls)
+//@ ghost gVerifies Int
+//@ ghost gVerOK Bool
+//@ extern crypto.(ECDSAPub).Verify
+//@   requires len(arg1) >= 64
+//@   ghost gVerifies = gVerifies + 1
+//@   ghost gVerOK = result == nil
 //@ func (commit).Signature
 //@   ensures [C19] @fixedLength len(result) == 64
 //@ func (amevCommit).Signature
@@ -282,6 +316,8 @@ package consensus
 //@   requires timestamp / 1000000000 <= 4294967295
 //@   ensures [C19] @header result != nil && as(neoBlock, result).base.Index == index && as(neoBlock, result).base.PrevHash == prevHash && as(neoBlock, result).base.ConsensusData == nonce && as(neoBlock, result).base.Timestamp == timestamp / 1000000000 && as(neoBlock, result).base.Version == 0
 //@   ensures [C19] @noHashYet as(neoBlock, result).hash == nil && isnil(as(neoBlock, result).signature)
+// the header's Merkle root is the root of the tree over exactly the proposed hashes, in their order
+//@   ensures [C19] @root implies(len(txHashes) != 0, sametable(gTreeOver, txHashes) && as(neoBlock, result).base.MerkleRoot == gLastRootHash)
 //@ func (*neoBlock).SetTransactions
 //@   modifies heap neoBlock.transactions
 //@ func (*neoBlock).Sign
@@ -289,7 +325,9 @@ package consensus
 //@   modifies gEncoded, heap neoBlock.signature
 //@ func (*neoBlock).Verify
 //@   requires pub != nil && len(sign) >= 64
-//@   modifies gEncoded
+//@   modifies gEncoded, gVerifies, gVerOK
+// a signature is accepted only if the key's own check of this block's hash data accepted it
+//@   ensures [C19] @onlyByKey implies(result == nil, gVerifies == old(gVerifies) + 1 && gVerOK)
 //@ func (*neoBlock).Hash
 //@   modifies gEncoded, gHashed, gLastHash, heap neoBlock.hash, heap box.*
 //@   ensures [C19] @cachedOnce implies(old(b.hash) != nil, b.hash == old(b.hash) && result == *old(b.hash))
@@ -298,6 +336,7 @@ package consensus
 //@ func NewPreBlock
 //@   requires timestamp / 1000000000 <= 4294967295
 //@   ensures [C19] @header result != nil && as(preBlock, result).base.Index == index && as(preBlock, result).base.PrevHash == prevHash && as(preBlock, result).base.ConsensusData == nonce && as(preBlock, result).base.Timestamp == timestamp / 1000000000 && as(preBlock, result).base.Version == 0
+//@   ensures [C19] @root implies(len(txHashes) != 0, sametable(gTreeOver, txHashes) && as(preBlock, result).base.MerkleRoot == gLastRootHash)
 //@ func (*amevBlock).SetTransactions
 //@   modifies nothing
 //@ func (*amevBlock).Sign
@@ -305,7 +344,9 @@ package consensus
 //@   modifies gEncoded, heap amevBlock.signature
 //@ func (*amevBlock).Verify
 //@   requires pub != nil && len(sign) >= 64
-//@   modifies gEncoded
+//@   modifies gEncoded, gVerifies, gVerOK
+// a signature is accepted only if the key's own check of this block's hash data accepted it
+//@   ensures [C19] @onlyByKey implies(result == nil, gVerifies == old(gVerifies) + 1 && gVerOK)
 //@ func (*amevBlock).Hash
 //@   modifies gEncoded, gHashed, gLastHash, heap amevBlock.hash, heap box.*
 //@   ensures [C19] @cachedOnce implies(old(b.hash) != nil, b.hash == old(b.hash) && result == *old(b.hash))
@@ -326,3 +367,17 @@ package consensus
 //@   ensures [C19] @fourBytes len(result) == 4
 //@ func (*preBlock).Data
 //@   ensures [C19] @fourBytes len(result) == 4
+
+// the anti-MEV block: the pre-block's header with the Merkle root recomputed over the final transaction list
+//@ pure Transaction.Hash
+//@ func NewAMEVBlock
+//@   requires pre != nil && 0 <= m && m <= len(cnData) && forall(k, 0, m, len(cnData[k]) >= 4)
+//@   requires forall(k, 0, len(as(preBlock, pre).initialTransactions), as(preBlock, pre).initialTransactions[k] != nil)
+// the artificial envelope value is a wrapping sum
+//@   wraps *
+//@   loop 1: invariant 0 <= i && i <= m
+//@   loop 2: invariant 0 <= idx && idx <= len(txHashes) && len(txHashes) == len(res.transactions) && len(res.transactions) >= 1 && res != nil
+//@   loop 2: invariant forall(k, 0, len(res.transactions), res.transactions[k] != nil) && forall(k, 0, idx, txHashes[k] == res.transactions[k].Hash())
+//@   ensures [C19] @root result != nil && as(amevBlock, result).base.MerkleRoot == gLastRootHash && len(gTreeOver) == len(as(amevBlock, result).transactions)
+//@   ensures [C19] @rootOverFinalList forall(k, 0, len(gTreeOver), gTreeOver[k] == as(amevBlock, result).transactions[k].Hash())
+//@   ensures [C19] @headerKept as(amevBlock, result).base.Index == as(preBlock, pre).base.Index && as(amevBlock, result).base.PrevHash == as(preBlock, pre).base.PrevHash && as(amevBlock, result).base.Timestamp == as(preBlock, pre).base.Timestamp && as(amevBlock, result).base.ConsensusData == as(preBlock, pre).base.ConsensusData
